@@ -5,6 +5,7 @@
 #[path = "../../zv/src/cfg.rs"]
 mod cfg;
 mod c20;
+mod c19;
 
 use cfg::Cfg;
 
@@ -16,13 +17,14 @@ fn main() {
     }
     let cfg = Cfg::parse(&args[2..]);
     // panics are caught and reported by the monitors; keep stderr small
-    std::panic::set_hook(Box::new(|_| {}));
+    vnet::install_quiet_panic_hook();
     let name = args[1].as_str();
     if name == "noop" {
         return;
     }
     let report = match name {
         "c20" => c20::run(&cfg),
+        "c19" => c19::run(&cfg),
         _ => {
             eprintln!("unknown monitor {name}");
             std::process::exit(2);
